@@ -18,7 +18,8 @@ PROPS_PART = {
         kani=[],
         cex={},
         native=[dict(bin='bnd_catalog', when='quick',
-                     bound='all insert/remove sequences of length <= 4 over 6 names (incl. root, nested, case variant) x 2 classes',
+                     bound='all insert/remove sequences of length <= 4 over 6 names (incl. root, nested, case variant) x 2 classes; after every step get/lookup for the 6 names + 5 never-inserted query names '
+                           '(z.b.a. z.a. y.c.b.a. z. Z.y.C.b.a.: diverge below an entry, below an entry-less node, at the root) x 2 classes, and iter',
                      what='public API of the real HashMapTreeCatalog vs a reference map after every step: get (exact), lookup (longest suffix), iter, values returned by insert/remove')],
         unverified=['HashMapTreeCatalog::iter / Node::iter / node::Iter state machine ("iteration yields exactly the current entries"): iterator '
                     'adaptor chains are outside Verus, and Kani cannot run HashMap::new() (RandomState seeds from the OS; the private std '
